@@ -10,6 +10,7 @@ import (
 
 	ipfslog "berty.tech/go-ipfs-log"
 	"berty.tech/go-ipfs-log/entry"
+	"berty.tech/go-ipfs-log/identityprovider"
 	"berty.tech/go-ipfs-log/iface"
 	"github.com/ipfs/go-cid"
 	cbornode "github.com/ipfs/go-ipld-cbor"
@@ -288,7 +289,7 @@ func (w *World) doRawEntry() {
 	// clock times of every magnitude (the signed and the stored form must both keep every bit)
 	clockT := (1 << uint(r.Choose("raw-clock-exp", 62))) + r.Choose("raw-clock", 1<<10) - 1
 	ver := 1 + r.Choose("raw-v", 2)
-	idMode := r.Choose("raw-identity", 3)
+	idMode := r.Choose("raw-identity", 4)
 	if n == nil {
 		return
 	}
@@ -310,8 +311,12 @@ func (w *World) doRawEntry() {
 		}
 	}
 	if !handBuilt {
-		e, err := entry.CreateEntryWithIO(w.ctx, w.St, n.W.ID, &entry.Entry{LogID: w.LogID, Payload: pl, Next: next, Refs: refs,
-			Clock: entry.NewLamportClock(n.W.ID.PublicKey, clockT)}, nil, w.IO)
+		tmpl := &entry.Entry{LogID: w.LogID, Payload: pl, Next: next, Refs: refs, Clock: entry.NewLamportClock(n.W.ID.PublicKey, clockT)}
+		if picks[5]%5 == 0 {
+			tmpl.Clock = nil // the entry API then gives the default clock: the writer's key at time 0
+			r.Probe("entry-with-default-clock")
+		}
+		e, err := entry.CreateEntryWithIO(w.ctx, w.St, n.W.ID, tmpl, nil, w.IO)
 		if err != nil {
 			r.Violate(w.P.Prop+":create-entry", "CreateEntryWithIO failed for next=%d refs=%d: %v", len(next), len(refs), err)
 		}
@@ -365,6 +370,12 @@ func (w *World) doRawEntry() {
 		he.Identity = n.W.ID.Filtered()
 	case 2:
 		o := Writers()[picks[3]%len(Writers())].ID.Filtered()
+		he.Identity = o
+	case 3:
+		// the same identity id with other key material (rotated signing key, second device)
+		o := n.W.ID.Filtered()
+		o.PublicKey = rb(picks[3], 65)
+		o.Signatures = &identityprovider.IdentitySignature{ID: rb(picks[4], 72), PublicKey: rb(picks[5], 72)}
 		he.Identity = o
 	}
 	c, err := entry.ToMultihashWithIO(w.ctx, he, w.St, nil, w.IO)
